@@ -6,7 +6,10 @@ files=""; names=""; dirs=""
 for f in $BASE/$ID/*.go; do
   [ -f "$f" ] || continue
   b=$(basename $f)
-  dst=$(cd $WT/$ID && git status --porcelain --untracked-files=all | awk '{print $2}' | grep "/$b\$" | head -1)
+  dst=$(cd $WT/$ID 2>/dev/null && git status --porcelain --untracked-files=all | awk '{print $2}' | grep "/$b\$" | head -1)
+  # fall back to the path named in demo_path.txt / meta.json
+  [ -z "$dst" ] && dst=$(grep -ho "[A-Za-z0-9_./-]*/$b" $BASE/$ID/demo_path.txt $BASE/$ID/meta.json 2>/dev/null | grep -v "^/" | head -1)
+  [ -z "$dst" ] && dst=$(grep -ho "[A-Za-z0-9_./-]*/$b" $BASE/$ID/demo_path.txt $BASE/$ID/meta.json 2>/dev/null | sed "s#^/tmp/wt[0-9]*/$ID/##" | head -1)
   [ -z "$dst" ] && { echo "cannot place $b"; continue; }
   files="$files $b:$dst"
   d=$(dirname $dst)
